@@ -272,9 +272,14 @@ def run(fx, chk, tier):
     mr = fx.impl_fn("MetaBox", "ReadBox<&mut R>", "read_box")
     mw = fx.impl_fn("MetaBox", "WriteBox<&mut W>", "write_box")
     if chk.anchor("R3", "MetaBox read_box/write_box", mr and mw):
-        def const_refs(fn):
+        def const_refs(fn, depth=0):
             out = set()
             for n, _ in hirq.walk(hirq.body_root(fn)):
+                # same-file helpers the function calls (`fn hdlr_for_mdir() -> HdlrBox`)
+                if depth < 2 and n.get("k") in ("call", "mcall"):
+                    g = fx.fns.get(n.get("resolved") or n.get("fn"))
+                    if g is not None and (g.get("span") or {}).get("file") == (fn.get("span") or {}).get("file") and hirq.body_root(g) is not None and g is not fn:
+                        out |= const_refs(g, depth + 1)
                 if n.get("k") == "path" and n.get("res") == "def" and n.get("dk", "").startswith("Const") and "FourCC" in (n.get("ty") or ""):
                     out.add(n["def"])
                 if n.get("k") == "match":
